@@ -49,6 +49,12 @@ def run_query(w, nodes, fmt, casedir, k, rng):
         argv += ["-g", w.gfa, "-f", fmt]
     if w.gvi != w.gaf + ".gvi":
         argv += ["-i", w.gvi]
+    if rng.random() < 0.2:  # default output: stdout
+        o = run_cli(argv)
+        if o.ok:
+            with open(out, "w") as f:
+                f.write(o.stdout)
+        return o, out
     argv += ["-o", out]
     return run_cli(argv), out
 
